@@ -16,7 +16,7 @@ CLAIM = dict(
           "output row i/K in order (no law needed) and the horizontal core equals the per-row fold for associative-commutative f with "
           "identity (identity padding included); an `initial` value is folded into every result (fold seeded by it); operand patterns the "
           "simd path refuses (different rank, broadcasts that are not 2-d) are evaluated by the default evaluator, i.e. equal it by "
-          "construction. Refuted with a witness: column-major operands (storage order walked as row-major). "
+          "construction; so are views whose output or an operand is not row-major (layout guard at the head of every eval_* arm). "
           "Tied to the C++ on every run: the index enumerators (binary_2d_simd, reduction_2d, outer_simd; N in 4/8/16, every "
           "column count 1..4N+1, all 2-d broadcast patterns) and array::fn(args, ctx) bit for bit against the extracted model for "
           "x86 SSE, x86 AVX, vector extensions 128/256/512 and SIMDe AVX-512, float and double, sizes 1..4N+1, every axis "
@@ -24,21 +24,21 @@ CLAIM = dict(
     ref="5.12", technique="Coq proof (loop invariant 'first i results final'; cover-once of the enumerator; fold permutation) + "
                           "differential correspondence of the extracted model with the real evaluators, per context",
     extra="partial: intrinsics are modelled as N-lane maps of f, not verified; n-d reduction reshape and outer are corresponded, "
-          "not proved; matmul is not covered. Five defects found by this check were repaired in /repo (fix: commits: identity "
-          "start of the full reduction, negative reduction axis, (1,1) operand offset, fallback for refused views, initial value); "
-          "their inputs stay in the generated streams. Open findings: column-major operands; relu/relu6 lanes on -0.0 / NaN")
+          "not proved; matmul is not covered. Six defects found by this check were repaired in /repo (fix: commits: identity "
+          "start of the full reduction, negative reduction axis, (1,1) operand offset, fallback for refused views, initial value, "
+          "layout guard for column-major operands); their inputs stay in the generated streams. Open finding: relu/relu6 lanes on -0.0 / NaN")
 RULE = ("index level: every column count 1..4N+1 x rows 1..3 x all 16 (lhs,rhs) 2-d broadcast patterns for N in {4,8,16}; reduction "
         "enumerators over 2-d/3-d shapes, every axis; outer enumerators. End to end, per context and dtype (lanes N): unary / binary "
         "same-shape for every element count 1..4N+1 (1-d and folded 2-d/3-d shapes), every 2-d broadcast pattern with cols 1..2N+1, "
         "outer, add/multiply reductions over every axis / None / keepdims (ct and run time) with integer-valued data so that "
         "re-association is exact; streams aimed at past and present defects: (1,1) operands, multiply with a one-element result, "
-        "negative axes, rank mismatch / n-d broadcast, initial (all five repaired), column-major, special values. non-trivial = more than N elements or a 2-d+ shape; distinct = distinct case lines")
+        "negative axes, rank mismatch / n-d broadcast, initial, column-major (all six repaired), special values. non-trivial = more than N elements or a 2-d+ shape; distinct = distinct case lines")
 THEOREM_STATUS = {"proved": ["C12_unary_eq_map", "C12_binary_same_eq", "C12_binary_2d_covers_once", "C12_binary_2d_eq_on_domain",
                              "C12_no_UB", "C12_reduce_full_on_domain", "C12_reduce_horizontal_core", "C12_reduce_vertical_core",
-                             "C12_binary_refused_falls_back"],
+                             "C12_binary_refused_falls_back", "C12_not_row_major_falls_back"],
                   "partial": ["reduction_nd_reshape (n-d -> 2-d; the 2-d cores are proved) and eval_outer: modelled and corresponded on every run, "
                               "not proved", "lane operations of the six contexts: modelled as N-lane maps of f, not verified"],
-                  "refuted": ["C12_column_major_refuted"]}
+                  "refuted": []}
 ASSUMPTIONS = ["the lane operation of every context is the N-lane map of the scalar operation (intrinsics / vector extensions / SIMDe "
                "are not verified; compared bit for bit on the explored inputs only)",
                "reductions: 'equal up to re-association' is made precise as equality for associative-commutative f with identity; the "
@@ -261,17 +261,7 @@ def _norm(s): return " ".join(s.split())
 def classify(line, impl, spec, model):
     t = line.split(" ")
     op = t[0]
-    same_as_model = _norm(impl) == _norm(model)
-    crashed = impl.startswith("trap")
     if op in ("unary", "binary", "outer", "reduce") and t[1] == "S:none": return None
-    shp = _arrs(line)
-    if op == "unary":
-        if t[-1] == "S:col" and shp[0][0] > 1 and shp[0][1] > 1 and same_as_model: return "column_major_walked_as_row_major"
-        if t[3] in ("S:relu", "S:relu6") and re.search(r"90000[14]", line): return "relu_lane_op_differs_on_negzero_nan"
-        return None
-    if op == "binary":
-        l, r = shp[0], shp[1]
-        if t[-1] == "S:col":
-            return "column_major_walked_as_row_major" if (l[0] > 1 and l[1] > 1 and same_as_model) else None
-        return None
+    if op == "unary" and t[3] in ("S:relu", "S:relu6") and re.search(r"90000[14]", line):
+        return "relu_lane_op_differs_on_negzero_nan"
     return None
